@@ -234,9 +234,8 @@ def run_A(rep, K, tmp, items, secs):
         stats['A:family:' + m['family']] += 1
         size = ic.pair_size(s1, s2)
         if k == 9:
-            K.add('intersect-timeout-%s' % core_of(d1, d2),
-                  'C12: intersect did not return within %d s on a %s pair with a constructed transversal crossing' % (secs, kinds_label(d1, d2)),
-                  replay_pair(d1, d2, {'crossings': crossings, 'family': m['family']}), size)
+            # wall-clock guard fired: inconclusive under machine load (termination is not C12's subject); counted, not judged
+            stats['timeouts-skipped'] += 1
             continue
         if k != 0:
             K.add('intersect-exception-%s-%s' % (core_of(d1, d2), type(val).__name__),
@@ -468,6 +467,9 @@ def run_C(rep, K, tmp, rng, n, n_poly, secs, only=None):
                   'path1_repr': repr(path1), 'path2_repr': repr(path2)}
         if st != 'ok':
             if st == 'exc' and any(arcarc_tolerated(a, b) for a in p1d for b in p2d):
+                continue
+            if st == 'timeout':
+                stats['timeouts-skipped'] += 1      # inconclusive under load; not judged
                 continue
             K.add('path-intersect-%s' % ('timeout' if st == 'timeout' else 'exception-' + type(val).__name__),
                   'C12: Path.intersect %s' % ('timed out' if st == 'timeout' else 'raised %r' % (val,)), replay, scale)
